@@ -16,15 +16,32 @@ from ..report import Obligation, Report
 # property -> [(source property, {source rule: rule id here}, why it is also necessary here)]
 TABLE = {
     'C01': [('C05', {'R05.6': 'R01.13'},
-             'a work directory that still holds files of a dead attempt is published as part of the next result: the stored value is not what the computation yields')],
+             'a work directory that still holds files of a dead attempt is published as part of the next result: the stored value is not what the computation yields'),
+            ('C05', {'R05.2': 'R01.16'},
+             'a data object left on the task by a failed run is handed out by the next request as if it held the result: the value is an empty holder, not what run computes'),
+            ('C09', {'R09.4': 'R01.17'},
+             'a used config that does not get the context / namespace of the config using it (or is prepared before it has them) gives its tasks other parameter values than the configuration says')],
     'C02': [('C01', {'R01.7': 'R02.9'},
              'declared parameter objects (and their mutable defaults) shared between task instances can be changed by one run: the same config built later in the process renders other values into its key')],
     'C03': [('C01', {'R01.2': 'R03.12'},
-             'an input whose name / key does not reach the hashed text (two inputs collapsing to one entry) lets different upstream computations share one key')],
+             'an input whose name / key does not reach the hashed text (two inputs collapsing to one entry) lets different upstream computations share one key'),
+            ('C02', {'R02.4': 'R03.14'},
+             'what a parameter (object) contributes to the key is its stored constructor argument, dropped only under the declared exemptions: a lossy public view of the argument, or a widened exemption, gives '
+             'different computations one text')],
+    'C06': [('C05', {'R05.6': 'R06.11', 'R05.10': 'R06.12'},
+             'what a later chain loads is what was saved: files left in the temporary directory by an aborted save (the tail of a longer list) must not be published with the new value')],
     'C05': [('C07', {'R07.7': 'R05.8'},
              'a recomputed directory result that lands inside (or is merged into) the old one leaves a visible result that is neither the old nor the new value')],
     'C14': [('C16', {'R16.5': 'R14.8', 'R16.6': 'R14.9'},
-             'the in-memory cache is one of the caches the property speaks about: a stored None / falsy value is a stored value (returned, not recomputed)')],
+             'the in-memory cache is one of the caches the property speaks about: a stored None / falsy value is a stored value (returned, not recomputed)'),
+            ('C15', {'R15.8': 'R14.10'},
+             'an intact stored entry is returned, not recomputed: the test that finds it has to see what is stored when the lock is held, not what was there before waiting for it')],
+    'C15': [('C14', {'R14.11': 'R15.9'},
+             'at quiescence the stored entry is complete: a writer that refuses a value after truncating the file leaves an empty entry behind')],
+    'C16': [('C15', {'R15.8': 'R16.10'},
+             'two callers with the same binding execute the method once: the second one must find the entry the first one stored while it waited for the lock'),
+            ('C14', {'R14.6': 'R16.11'},
+             'a forced re-execution that fails must leave the stored entry in place: later calls with the same binding are answered from it (only_cache finds it, the method is not executed again)')],
     'C12': [('C07', {'R07.7': 'R12.2'},
              'a directory result that is moved *into* the old directory (instead of replacing it) lives at <key>/<key>_tmp/: later chains find the stale files under the 1.4.0 location')],
     'C13': [('C07', {'R07.2': 'R13.6', 'R07.4': 'R13.7'},
@@ -34,14 +51,18 @@ TABLE = {
 
 
 def run(A, R: Report, prop: str):
+    done = {}
     for src_prop, mapping, why in TABLE.get(prop, []):
-        mod = importlib.import_module(f'tcverif.rules.{src_prop.lower()}')
-        R2 = Report(src_prop, R.tier, quiet=True)
-        err = None
-        try:
-            mod.run(A, R2, False)
-        except AnalysisError as e:
-            err = str(e)
+        if src_prop not in done:
+            mod = importlib.import_module(f'tcverif.rules.{src_prop.lower()}')
+            R2 = Report(src_prop, R.tier, quiet=True)
+            err = None
+            try:
+                mod.run(A, R2, False)
+            except AnalysisError as e:
+                err = str(e)
+            done[src_prop] = (R2, err)
+        R2, err = done[src_prop]
         for old, new in mapping.items():
             text = R2.rules_text.get(old, old)
             R.rule(new, f'[{src_prop} {old}] {text} - needed here because {why}', floor=0 if err else R2.floors.get(old, 1))
